@@ -587,7 +587,7 @@ UW_LINES = list(BASE_LINES) + [
     "@context s5", "    [A] -> [B]: value * 5 * ub / ua", "    [B] -> [C]: value * 7 * uc / ub", "@end",
 ]
 UW_CTX = {"n1": {}, "n2": {}, "s3": {("A", "B"): 3}, "s5": {("A", "B"): 5, ("B", "C"): 7}}
-UW_EVENTS = [("en", c) for c in UW_CTX] + [("dis", 1), ("dis", 2)] + [("call", c) for c in UW_CTX]
+UW_EVENTS = [("en", c) for c in UW_CTX] + [("dis", 1), ("dis", 2)] + [("call", c) for c in UW_CTX] + [("icall", "n1"), ("icall", "s5")]  # icall: the in-place form q.ito(unit, ctx)
 
 
 def uw_model(stack):
@@ -601,11 +601,11 @@ def uw_model(stack):
     return want
 
 
-def uw_probe(ureg, *ctx):
+def uw_probe(ureg, *ctx, inplace=False):
     Q = ureg.Quantity
     out = {}
     for name, (a, b) in {"ua->ub": ("ua", "ub"), "ub->uc": ("ub", "uc"), "ua->uc": ("ua", "uc"), "foot->ua": ("foot", "ua")}.items():
-        o = call(lambda: Q(1, a).to(b, *ctx).magnitude)
+        o = call((lambda: (lambda q: (q.ito(b, *ctx), q.magnitude)[1])(Q(1, a))) if inplace else (lambda: Q(1, a).to(b, *ctx).magnitude))
         out[name] = o[1] if o[0] == "ok" else (None if o[1] == "DimensionalityError" else o[1])
     return out
 
@@ -630,9 +630,11 @@ def run_unwind(acc, depth, first):
             else:
                 if ev[1] in stack:
                     return False
+                if i < len(hist) - 1:
+                    uw_probe(ureg, ev[1], inplace=(ev[0] == "icall"))  # some of these conversions fail: the per-call context is left either way
                 if i == len(hist) - 1:
                     acc.ev()
-                    got, want = uw_probe(ureg, ev[1]), uw_model(stack + [ev[1]])
+                    got, want = uw_probe(ureg, ev[1], inplace=(ev[0] == "icall")), uw_model(stack + [ev[1]])
                     bad = {k: (str(want[k]), str(got[k])) for k in want if got[k] != want[k]}
                     if bad:
                         acc.violation(["context-stack", "partial-unwind", "per-call-context-on-a-stack-does-not-follow-the-model", ev[1][0] + "-on-" + "".join(c[0] for c in stack)], {"history": [list(e) for e in hist]}, {k: v[0] for k, v in bad.items()}, {k: v[1] for k, v in bad.items()})
